@@ -1,6 +1,5 @@
-\* exhaustive: chain length <= 3, 2 competing variants per head, 2 blocks verified ahead,
-\* every (position, version, committed field) tamper and every non-continuing / wrong-root offer.
-\* measured: see evidence (states / transitions are recorded by the check on every run)
+* exhaustive: chain length <= 3, 4 shapes per head, 1 block verified ahead; every (position, version, shape, committed field)
+\* tamper and every non-continuing / wrong-root (resealed and hash-kept) / stale-class offer. measured 57 569 states / 7.5 M transitions
 CONSTANTS
   Versions <- MCVersions
   Committed <- MCCommitted
@@ -12,7 +11,7 @@ CONSTANTS
   Targets <- MCTargets
   EmptyDiffShapes <- MCEmptyDiffShapes
   ClassShapes <- MCClassShapes
-  MaxPending = 2
+  MaxPending = 1
   SuccessionChecked = TRUE
   RootChecked = TRUE
   RootCheckedOnEmptyDiff = TRUE
